@@ -365,6 +365,16 @@ func c05Scenarios(tier string) []*Scenario {
 								err := rl.AcquirePermits(ctx, uint(k))
 								c.ret, c.err = vrt.Elapsed(), err
 								c.wait = -2 // reserved, but how long is only known to the model
+							case "acquiredl": // blocking acquire under a context whose own deadline is w from now
+								ctx, cancel := vcontext.WithDeadline(context.Background(), time.Unix(0, vrt.Now()).Add(time.Duration(w)))
+								err := rl.AcquirePermits(ctx, uint(k))
+								cancel()
+								c.ret, c.err = vrt.Elapsed(), err
+								c.wait = -2
+								if err != nil && c.ret != c.at+w {
+									vrt.Fail(fmt.Sprintf("AcquirePermits under a context with deadline %d from t=%d returned %v at t=%d", w, c.at, err, c.ret))
+									return
+								}
 							case "sleep":
 								vrt.Sleep(k)
 								continue
@@ -390,7 +400,7 @@ func c05Scenarios(tier string) []*Scenario {
 							c.op = fmt.Sprintf("reserve:%s", strings.Split(c.op, ":")[1])
 						} else {
 							// returned early with the context error: the wait it was given is at least ret-at
-							if !errors.Is(c.err, context.Canceled) {
+							if !errors.Is(c.err, context.Canceled) && !(strings.HasPrefix(c.op, "acquiredl") && errors.Is(c.err, context.DeadlineExceeded)) {
 								vrt.Fail(fmt.Sprintf("cancelled acquire returned %v", c.err))
 								return
 							}
@@ -435,7 +445,12 @@ func c05Scenarios(tier string) []*Scenario {
 	// cancellation landing on the very instant the wait ends, followed by another blocking acquisition
 	add("smooth-cancel-at-expiry", sm, [][]string{{"reserve:1", "acquirectx:1:100", "acquire:1:300"}})
 	add("smooth-cancel-at-expiry2", sm, [][]string{{"reserve:1", "acquirectx:1:100"}, {"sleep:100", "acquire:1:300"}})
+	// the caller's own context deadline expires before (50), exactly when (100) and after (150) the wait ends
+	for _, d := range []int{50, 100, 150} {
+		add("smooth-own-deadline", sm, [][]string{{"reserve:1", fmt.Sprintf("acquiredl:1:%d", d), "acquire:1:300"}})
+	}
 	bu := Spec{Kind: KLimiter, Permits: 2, Period: 100}
+	add("bursty-own-deadline", bu, [][]string{{"reserve:2", "acquiredl:1:50", "tryreserve:2:300"}})
 	add("bursty-try", bu, [][]string{{"try:1"}, {"try:1"}, {"try:1"}})
 	add("bursty-try2", bu, [][]string{{"try:2"}, {"try:1"}})
 	add("bursty-reserve", bu, [][]string{{"reserve:3"}, {"reserve:1"}, {"tryreserve:1:100"}})
